@@ -17,7 +17,9 @@
 #include <cstring>
 #include <cassert>
 #include <ctime>
+#include <malloc.h>
 #include <map>
+#include <new>
 #include <sched.h>
 #include <set>
 #include <string>
@@ -197,6 +199,50 @@ inline void verdict_handler(int verdict, const char* msg) {
 }
 
 }  // namespace dsim
+
+// Allocation-runaway guard: a structure that keeps allocating inside one simulated run (a retry loop that creates a node per
+// round, a level raised for ever) would otherwise only end at the step budget after minutes of page faults.  The bytes that
+// are live (operator new minus operator delete) are tracked while a run is active; legitimate runs stay far below the limit
+// of 3 GiB (the maximum seen is printed as "alloc_max" on the END line of a batch).  Not instrumented, so it never adds a
+// schedule point.
+namespace dsim {
+inline int64_t g_alloc_bytes = 0, g_alloc_max = 0;
+inline bool g_alloc_track = false;
+constexpr int64_t ALLOC_LIMIT = 3ll << 30;
+}  // namespace dsim
+__attribute__((no_sanitize("thread"))) void* operator new(std::size_t n) {
+    void* p = malloc(n ? n : 1);
+    if (!p) throw std::bad_alloc();
+    if (dsim::g_alloc_track) {
+        dsim::g_alloc_bytes += (int64_t)malloc_usable_size(p);
+        if (dsim::g_alloc_bytes > dsim::g_alloc_max) dsim::g_alloc_max = dsim::g_alloc_bytes;
+        if (dsim::g_alloc_bytes > dsim::ALLOC_LIMIT) {
+            dsim::g_alloc_track = false;
+            dsim::emit_fatal("alloc-runaway", "more than 3 GiB of live heap within one simulated run");
+            _exit(74);
+        }
+    }
+    return p;
+}
+__attribute__((no_sanitize("thread"))) void* operator new[](std::size_t n) {
+    return operator new(n);
+}
+__attribute__((no_sanitize("thread"))) void operator delete(void* p) noexcept {
+    if (dsim::g_alloc_track && p) dsim::g_alloc_bytes -= (int64_t)malloc_usable_size(p);
+    free(p);
+}
+__attribute__((no_sanitize("thread"))) void operator delete[](void* p) noexcept {
+    if (dsim::g_alloc_track && p) dsim::g_alloc_bytes -= (int64_t)malloc_usable_size(p);
+    free(p);
+}
+__attribute__((no_sanitize("thread"))) void operator delete(void* p, std::size_t) noexcept {
+    if (dsim::g_alloc_track && p) dsim::g_alloc_bytes -= (int64_t)malloc_usable_size(p);
+    free(p);
+}
+__attribute__((no_sanitize("thread"))) void operator delete[](void* p, std::size_t) noexcept {
+    if (dsim::g_alloc_track && p) dsim::g_alloc_bytes -= (int64_t)malloc_usable_size(p);
+    free(p);
+}
 
 // an assertion inside the code under test firing under some schedule is a violation
 extern "C" void __assert_fail(const char* expr, const char* file, unsigned int line, const char* /*func*/) noexcept {
@@ -395,9 +441,12 @@ inline bool run_one(uint64_t seed, const Options& o) {
     g_emit_decisions_path = o.emit_decisions;
     g_cur_seed = seed;
     g_cur_faults = faults_on;
+    g_alloc_bytes = 0;
+    g_alloc_track = true;
     sim::run_begin(cfg);
     execute(w, res);
     sim::RunStats st = sim::run_end();
+    g_alloc_track = false;
     g_res = nullptr;
     print_result(seed, w, res, st, faults_on);
     if (o.emit_decisions) {
@@ -522,7 +571,7 @@ inline int main_impl(int argc, char** argv) {
             if (o.budget_s > 0 && now_s() - t0 > o.budget_s) break;
         }
         if (g_agg) g_agg->flush();
-        printf("END %" PRIu64 "\n", done);
+        printf("END %" PRIu64 " alloc_max=%" PRId64 "\n", done, g_alloc_max);
         fflush(stdout);
         return 0;
     }
